@@ -683,6 +683,163 @@ def _absfloor(ctx, rid, select, what_fn):
     return res.finish(1)
 
 
+def rule_ends(ctx):
+    """'min-max scaling maps each non-constant column onto the requested range with both ends attained', 'max-abs scaling
+    gives every non-zero column maximum absolute value one', 'standard scaling yields zero mean and unit variance': for a
+    non-constant column the fitted offset and scale, read as formulas of the column's mean / standard deviation / minimum /
+    maximum / largest absolute value (rules/formula.py), composed with the element map of transform, give
+        min-max:   T(min) = lo and T(max) = hi,
+        max-abs:   T(x) = x / maxabs,
+        standard:  T(x) = (x - mean) / std   (with_mean, with_std)."""
+    from .formula import Formula, V
+    from .calc import Unsupported, Rat, Poly
+    res = RuleResult("R-C16-ends", "fit and transform of the linear scalers compose to the documented maps: min-max sends the column minimum to the lower and the maximum to the upper end of the range, max-abs divides by the largest absolute value, standard scaling is (x - mean) / std")
+    F = ctx.facts()
+    sel = lambda nm: next((f for f in F.all_fns() if f["d"]["krate"] == "linfa_preprocessing" and f["d"]["name"] == nm and fn_file(f).endswith("linear_scaling.rs") and not f.get("exp") and (f["d"].get("self_adt") or "").endswith("ScalingMethod") and not f["d"].get("trait")), None)   # noqa: E731
+    fits = {k_: sel(k_) for k_ in ("standardize", "min_max", "max_abs")}
+    tr = next((f for f in F.find_fns(name="transform", krate="linfa_preprocessing", trait="Transformer") if (f["d"].get("self_adt") or "").endswith("LinearScaler") and "DatasetBase" not in f["inputs"][1]), None)
+    if tr is None or not all(fits.values()):
+        res.missing_anchor("LinearScaler::standardize / min_max / max_abs and <LinearScaler as Transformer<Array2>>::transform")
+        return res.finish(3)
+    c = tr["crate"]
+
+    def fit_formulas(fn, bools):
+        fm = Formula(F)
+        fm.skip_early_returns = True
+        fm.general_branch = True
+        fm.opaque_any.update({"mean_axis": "mean", "std_axis": "std", "norm_max": "maxabs", "norm_l1": "?", "var_axis": "var"})
+        env = {}
+        for p_ in fn["params"]:
+            for b in pat_bindings(p_):
+                ty = (c.ty(b.get("t")) or "").strip()
+                if ty == "bool":
+                    fm.bool_env[b["local"]] = bools.get(b["name"], True)
+                elif "ArrayBase" in ty:
+                    env[b["local"]] = V("elem2", fm.atom("x"))
+                else:
+                    env[b["local"]] = V("scal", fm.atom({"min": "lo", "max": "hi"}.get(b["name"], "arg:" + b["name"])))
+        # running extrema over the rows: fold_axis(Axis(0), +inf, keep the smaller) is the column minimum, (-inf, the larger) the maximum
+        for y in walk(fn["body"]):
+            if y.get("k") == "LetStmt" and y.get("init") is not None and y["pat"].get("k") == "Bind":
+                i0 = peel_refs(y["init"])
+                if i0.get("k") == "MethodCall" and i0["name"] == "fold_axis" and len(i0["args"]) == 3:
+                    st = peel_refs(i0["args"][1])
+                    nm = (c.dfn(strip(st["f"]).get("def")) or {}).get("name") if st.get("k") == "Call" and strip(st["f"]).get("k") == "Path" else None
+                    clo = strip(i0["args"][2])
+                    ops = [z["op"] for z in walk(clo) if z.get("k") == "Binary" and z["op"] in ("<", ">", "<=", ">=")]
+                    if nm == "infinity" and ops and all(o in ("<", "<=") for o in ops):
+                        fm.let_override[y["pat"]["local"]] = V("elem", fm.atom("min", elem=True))
+                    elif nm == "neg_infinity" and ops and all(o in (">", ">=") for o in ops):
+                        fm.let_override[y["pat"]["local"]] = V("elem", fm.atom("max", elem=True))
+        v = fm.expr(c, fn["body"], env)
+        if v.kind != "struct" or "offsets" not in v.r or "scales" not in v.r:
+            raise Unsupported("the fit does not end in a LinearScaler literal")
+        return fm, v.r["offsets"].r, v.r["scales"].r
+
+    def element_maps():
+        """(map for Standard(false, _), map for every other method, the range map of MinMax) as functions of x, o, s, hi, lo"""
+        fm = Formula(F)
+        x_, o_, s_ = fm.atom("x", elem=True), fm.atom("o", elem=True), fm.atom("s", elem=True)
+        clos = []
+        for y in walk(tr["body"]):
+            if y.get("k") == "MethodCall" and y["name"] in ("mapv_inplace", "mapv", "mapv_into", "map_inplace") and y["args"] and strip(y["args"][0]).get("k") == "Closure":
+                clos.append((y, strip(y["args"][0])))
+        zipc = next((strip(y["args"][0]) for y in walk(tr["body"]) if y.get("k") == "MethodCall" and y["name"] == "for_each" and y["args"] and strip(y["args"][0]).get("k") == "Closure" and len(strip(y["args"][0])["params"]) == 3), None)
+        if zipc is None or len(clos) != 2:
+            raise Unsupported("the column walk with (column, offset, scale) and its two element maps were not found")
+        bs = [list(pat_bindings(p_)) for p_ in zipc["params"]]
+        env = {bs[1][0]["local"]: V("scal", o_), bs[2][0]["local"]: V("scal", s_)}
+        maps = []
+        for call, clo in clos:
+            env2 = dict(env)
+            pb = list(pat_bindings(clo["params"][0]))
+            env2[pb[0]["local"]] = V("scal", x_)
+            maps.append((call, fm.expr(c, clo["body"], env2).r))
+        # which of the two is under `if let Standard(false, _)`: the one in the `then` of an If whose condition is a Let over self.method
+        iff = next((y for y in walk(zipc["body"]) if y.get("k") == "If" and strip(y["c"]).get("k") == "Let"), None)
+        if iff is None:
+            raise Unsupported("the method test around the element maps")
+        in_then = [m_ for call, m_ in maps if any(z is call for z in walk(iff["then"]))]
+        in_else = [m_ for call, m_ in maps if iff.get("else") is not None and any(z is call for z in walk(iff["else"]))]
+        if len(in_then) != 1 or len(in_else) != 1:
+            raise Unsupported("the two element maps are not the two branches of the method test")
+        # the range map of MinMax: `x * (max - min) + min` in the arm that binds MinMax(min, max)
+        rng = None
+        for y in walk(tr["body"]):
+            if y.get("k") == "Match" and y.get("src", "Normal") == "Normal":
+                for a in y["arms"]:
+                    p_ = a["pat"]
+                    while p_.get("k") == "Ref":
+                        p_ = p_["pat"]
+                    if (c.dfn(p_.get("def")) or {}).get("name") == "MinMax" and len(p_.get("pats", [])) == 2:
+                        b0, b1 = list(pat_bindings(p_["pats"][0])), list(pat_bindings(p_["pats"][1]))
+                        envr = {b0[0]["local"]: V("scal", fm.atom("lo")), b1[0]["local"]: V("scal", fm.atom("hi"))}
+                        for z in walk(a["body"]):
+                            if z.get("k") == "Path" and "local" in z and z["local"] not in envr:
+                                envr[z["local"]] = V("scal", fm.atom("r"))
+                        rng = fm.expr(c, a["body"], envr).r
+        if rng is None:
+            raise Unsupported("the range map of MinMax")
+        return fm, in_then[0], in_else[0], rng
+
+    try:
+        fmT, keepmean_map, plain_map, range_map = element_maps()
+    except (Unsupported, TypeError, KeyError, AttributeError, IndexError) as e_:
+        res.instance("transform")
+        res.undecided("%s : not-read" % fn_key(tr), "the element maps of LinearScaler::transform are outside the vocabulary of the formula reader: %s (fail closed)" % e_, fn_loc(tr))
+        return res.finish(3)
+
+    def compose(fm, emap, o, s, x):
+        r = fmT.substitute(emap, "o", None) if False else emap
+        # substitute o, s, x (polynomial substitution needs polynomials: o, s, x here are rational functions with
+        # polynomial numerators over one denominator each; do it through values at the comparison instead)
+        return r
+
+    def subst_rat(r, mapping):
+        """r with atoms replaced by rational functions"""
+        def sub_poly(p):
+            out = Rat.const(0)
+            for m, cf in p.d.items():
+                term = Rat(Poly({(): cf}))
+                for a, pw in m:
+                    base = mapping.get(a, Rat(Poly.atom(a)))
+                    for _ in range(pw):
+                        term = term * base
+                out = out + term
+            return out
+        return sub_poly(r.num) / sub_poly(r.den)
+    cases = [("min_max", {}, "min-max"), ("max_abs", {}, "max-abs"), ("standardize", {"with_mean": True, "with_std": True}, "standard")]
+    for nm, bools, label in cases:
+        fn = fits[nm]
+        key = fn_key(fn)
+        res.instance("%s : %s" % (key, label))
+        try:
+            fm, o, s_ = fit_formulas(fn, bools)
+            one = Rat.const(1)
+            X = lambda a: Rat(Poly.atom(a))      # noqa: E731
+            if label == "min-max":
+                T = lambda xv: subst_rat(range_map, {"r": subst_rat(plain_map, {"x": xv, "o": o, "s": s_})})   # noqa: E731
+                lo_v, hi_v = T(X("min")), T(X("max"))
+                ok = fm.same(lo_v, X("lo")) and fm.same(hi_v, X("hi"))
+                why = "T(min) = %s, T(max) = %s (documented: lo, hi)" % (lo_v.key()[:80], hi_v.key()[:80])
+            elif label == "max-abs":
+                Tx = subst_rat(plain_map, {"x": X("x"), "o": o, "s": s_})
+                ok = fm.same(Tx, X("x") / X("maxabs"))
+                why = "T(x) = %s (documented: x / maxabs)" % Tx.key()[:100]
+            else:
+                Tx = subst_rat(plain_map, {"x": X("x"), "o": o, "s": s_})
+                ok = fm.same(Tx, (X("x") - X("mean")) / X("std"))
+                why = "T(x) = %s (documented: (x - mean) / std)" % Tx.key()[:100]
+            if ok:
+                res.ok()
+                res.sample({"scaler": label, "composed": why})
+            else:
+                res.violate("%s : composed-map-differs:%s" % (key, label), "for a non-constant column the fitted %s scaler followed by transform is not the documented map: %s" % (label, why), fn_loc(fn))
+        except (Unsupported, TypeError, KeyError, AttributeError, IndexError) as e_:
+            res.undecided("%s : not-read:%s" % (key, label), "the fit of the %s scaler is outside the vocabulary of the formula reader: %s (fail closed)" % (label, e_), fn_loc(fn))
+    return res.finish(3)
+
+
 def rule_stale(ctx):
     """no field of a fitted model is computed from a local that is stored in another field and mutated in between (rules/stale.py)"""
     from . import stale
@@ -710,7 +867,7 @@ def rules(tier):
     from . import blockmean, skipfield, sizeroute
     return [sizeroute.make_rule("R-C16-sizeroute", lambda f: f["d"]["krate"] == "linfa_preprocessing", "linfa-preprocessing"),
             skipfield.make_rule("R-C16-skipfield", {"linfa_preprocessing"}, "linfa-preprocessing (scalers, whitener, vectorizers)", 3),
-            blockmean.make_rule("R-C16-blockmean", lambda f: f["d"]["krate"] == "linfa_preprocessing" and any(x in fn_file(f) for x in ("linear_scaling", "norm_scaling", "whitening")), "the scalers and whiteners of linfa-preprocessing"), rule_fitted, rule_normarms, rule_normzero, rule_absfloor, rule_meta, rule_empty, rule_div, rule_affine, rule_extrema, rule_memorder, rule_stale,
+            blockmean.make_rule("R-C16-blockmean", lambda f: f["d"]["krate"] == "linfa_preprocessing" and any(x in fn_file(f) for x in ("linear_scaling", "norm_scaling", "whitening")), "the scalers and whiteners of linfa-preprocessing"), rule_fitted, rule_normarms, rule_normzero, rule_absfloor, rule_ends, rule_meta, rule_empty, rule_div, rule_affine, rule_extrema, rule_memorder, rule_stale,
             carry.make_clone_rule("R-C16-clone", {"linfa_preprocessing"}, 8), carry.make_setter_rule("R-C16-override", {"linfa_preprocessing"}, 4),
             precision.make_rule("R-C16-precision", lambda f: f["d"]["krate"] == "linfa_preprocessing" and any(x in fn_file(f) for x in ("linear_scaling", "norm_scaling", "whitening")), 25, "linfa-preprocessing scalers and whiteners"),
             carry.make_accessor_rule("R-C16-accessor", {"linfa_preprocessing"}, 6), carry.make_ctor_rule("R-C16-ctor", {"linfa_preprocessing"}, 2)]
